@@ -7,6 +7,12 @@ C->S  Trace_ECGroup: the tiny curves are instantiated with the library's own Cur
       VerifyingKey / ECDH; every pair of group elements x Jacobian scalings through + double - * mul_add == ...,
       every (x, y) in (0..p+1)^2 as a public key in every encoding, ECDH for all key pairs.  TLC computes the
       expected result of every event from the affine law.
+      Entry points: invalid / foreign points are offered through EVERY public loading entry point and argument form
+      (from_public_point with PointJacobi, with affine Point, with a Point/PointJacobi living on another curve object;
+      from_string raw/uncompressed/hybrid/compressed; from_der / from_pem; ECDH.load_received_public_key[_bytes|_der|_pem];
+      the low-level ecdsa.Public_key constructor), all judged by the one rejection clause (ValidPub / OpenSSL pubcheck).
+      Table path: generator=True points in several projective scalings (Z != 1), odd and even k (TLC on the tiny curves,
+      OpenSSL on the shipped ones) next to the NAF path.
       Error paths: the first multiplication of a fresh generator=True point is interrupted (a private BaseException raised
       from a sys.settrace line event, EVERY position inside PointJacobi._maybe_precompute on the tiny curves, sampled
       positions on all shipped curves), the exception swallowed, and later multiplications on the same object are judged
